@@ -8,6 +8,7 @@ satisfiability and bijection theorems of `Props/C01/*.lean` (and C08, C10) speak
 import Lemmas.GenFam
 import Props.C01.Php
 import Props.C01.Bphp
+import Props.C01.Gphp
 set_option linter.unusedSimpArgs false
 namespace Cnfgen.C01
 open Cnfgen Cnfgen.Vars Cnfgen.PyGen Cnfgen.GenVars Cnfgen.Fam Cnfgen.PyF Cnfgen.GenFam
@@ -67,6 +68,34 @@ theorem gen_php_unsat_iff (m n : Nat) (f : Bool) :
 /-- non-vacuity: `PigeonholePrinciple(2, 1)`: 2 variables, two unit clauses and one "at most one" -/
 example : PigeonholePrinciple 2 1 false false =
     Except.ok ⟨2, [.clause [1], .clause [2], .lin [1, 2] .le 1]⟩ := by rw [gen_php_eq_model]; rfl
+
+/-! ## GraphPigeonholePrinciple -/
+
+/-- **`GraphPigeonholePrinciple` of the source is `Fam.gphp` of the model**, for every well-formed bipartite graph
+object (what `BipartiteGraph` maintains: C16) and all four flag combinations -/
+theorem gen_gphp_eq_model {G : BipG} (h : G.WF) (functional onto : Bool) :
+    GraphPigeonholePrinciple (absBip G) functional onto = Except.ok (stateOf (gphp G functional onto)) := by
+  unfold GraphPigeonholePrinciple
+  simp only []
+  rw [new_sparse_mapping_eq PyF.empty 0 rfl h]
+  simp only [Py.tryExcept, Py.ok_bind]
+  rw [force_complete_unary_eq _ 0 h, Py.ok_bind]
+  cases onto <;> cases functional <;>
+    simp [force_surjective_unary_eq _ 0 h, force_injective_unary_eq _ 0 h, force_functional_unary_eq _ 0 h,
+      gphp, stateOf, PyF.empty]
+
+/-- **the graph pigeonhole principle of the source is satisfiable exactly when the graph has a matching that covers the
+pigeons**, on the generated definition, for every bipartite graph object built by `add_edge` -/
+theorem gen_gphp_sat_iff_matching (l r : Nat) (es : List (Nat × Nat)) (B : BipG) (h : BipG.ofEdges l r es = .ok B)
+    (f : Bool) :
+    ∃ s : FState, GraphPigeonholePrinciple (absBip B) f false = Except.ok s ∧
+      s.numvar = ((B.numberOfEdges : Nat) : Int) ∧
+      ((∃ α, (formulaOf s).holds α = true) ↔
+        ∃ g : Nat → Nat, (∀ u, 1 ≤ u → u ≤ B.l → g u ∈ B.rnbrs u) ∧
+          (∀ u, 1 ≤ u → u ≤ B.l → ∀ u', 1 ≤ u' → u' ≤ B.l → g u = g u' → u = u')) := by
+  refine ⟨stateOf (gphp B f false), gen_gphp_eq_model (BipG.wf_ofEdges h).1 f false, rfl, ?_⟩
+  rw [formulaOf_stateOf]
+  exact gphp_sat_iff_matching B (goodBip_ofEdges l r es B h) f
 
 /-! ## BinaryPigeonholePrinciple -/
 
